@@ -118,8 +118,8 @@ theorem markDone_ok'' (o : Obj) (r : Res) (s' : St) (h : markDone o r = .ok s') 
   | outOfFuel => simp [markDone] at h
 
 theorem finish_done (w : World) (rs : Nat → St → Res) (hrs : ∀ k s s', rs k s = .ok s' → k ∈ s'.done ∧ s.done ⊆ s'.done)
-    (k : Kind) (t : Text) (o : Obj) (rw : Bool) (v : Option Obj) (s s' : St)
-    (h : finish w rs k t o rw v s = .ok s') : s.done ⊆ s'.done := by
+    (k : Kind) (t : Text) (tg : Option (Loc × Obj)) (o : Obj) (rw : Bool) (v : Option Obj) (s s' : St)
+    (h : finish w rs k t tg o rw v s = .ok s') : s.done ⊆ s'.done := by
   unfold finish at h
   cases v with
   | none => simp only [unvisit, Res.ok.injEq] at h; subst h; exact fun _ h => h
@@ -201,7 +201,7 @@ theorem resolve_marks (w : World) : ∀ fuel cx o s s', resolve w fuel cx o s = 
                       simp only [hres] at h
                       obtain ⟨s4, hfin, rfl⟩ := markDone_ok'' _ _ _ h
                       have h3 := (ih cx' tgt s2 s3 hres).2
-                      have h4 : s3.done ⊆ s4.done := finish_done w _ (fun k => ih _ k) _ _ _ _ _ _ _ hfin
+                      have h4 : s3.done ⊆ s4.done := finish_done w _ (fun k => ih _ k) _ _ _ _ _ _ _ _ hfin
                       exact ⟨by simp, fun x hx => by simp [h4 (h3 (hL hx))]⟩
                   · simp [hk] at h
 
@@ -255,8 +255,8 @@ theorem filter_eq_of_length (l : List (Text × Obj)) (p : Text × Obj → Bool)
   exact List.filter_eq_self.2 (List.length_filter_eq_length_iff.1 this)
 
 /-- `unvisitRef` with a value, in a run that stays clean: every callback under the text fits and fires -/
-theorem unvisit_settled (w : World) (k : Kind) (t : Text) (v : Obj) (s s' : St)
-    (h : unvisit w k t (some v) s = .ok s') (hc : Clean s') :
+theorem unvisit_settled (w : World) (k : Kind) (t : Text) (tg : Option (Loc × Obj)) (v : Obj) (s s' : St)
+    (h : unvisit w k t tg (some v) s = .ok s') (hc : Clean s') :
     Clean s ∧ s'.inprog = s.inprog.erase t ∧ Grow s s' ∧ (Settled w s → v ∈ s.done → Settled w s') := by
   unfold unvisit at h
   simp only [Res.ok.injEq] at h; subst h
@@ -290,8 +290,8 @@ theorem unvisit_settled (w : World) (k : Kind) (t : Text) (v : Obj) (s s' : St)
     exact (List.mem_erase_of_ne hne).2 (hs.pend t' a hp.1)
 
 theorem presC_finish (w : World) (rs : Nat → St → Res) (hrs : ∀ k, PresC w (rs k))
-    (k : Kind) (t : Text) (o : Obj) (rw : Bool) (v : Option Obj) (s s' : St)
-    (h : finish w rs k t o rw v s = .ok s') (hc : Clean s') :
+    (k : Kind) (t : Text) (tg : Option (Loc × Obj)) (o : Obj) (rw : Bool) (v : Option Obj) (s s' : St)
+    (h : finish w rs k t tg o rw v s = .ok s') (hc : Clean s') :
     Clean s ∧ s'.inprog = s.inprog.erase t ∧ Grow s s' ∧
       (Settled w s → (∀ v', v = some v' → v' ∈ s.done) → Settled w s' ∧ Has s' o) := by
   unfold finish at h
@@ -317,7 +317,7 @@ theorem presC_finish (w : World) (rs : Nat → St → Res) (hrs : ∀ k, PresC w
         simp only at c1 c2 c3
         exact ⟨c1, by omega, c3⟩
       obtain ⟨cf, i_f, gf, pf⟩ := presC_foldRes w rs hrs _ _ s2 hf hc2
-      obtain ⟨cu, iu, gu, pu⟩ := unvisit_settled w k t v s2 s' h hc
+      obtain ⟨cu, iu, gu, pu⟩ := unvisit_settled w k t tg v s2 s' h hc
       refine ⟨cf, by rw [iu, i_f], ⟨fun x hx => gu.1 (gf.1 hx), fun x hx => gu.2 (gf.2 (by simp [hx]))⟩, fun hs hv => ?_⟩
       have hvd := hv v rfl
       have hs1 : Settled w { s with value := s.value ++ [(o, v)] } := by
@@ -469,7 +469,7 @@ theorem resolve_presC (w : World) : ∀ fuel cx o, PresC w (resolve w fuel cx o)
                       simp only [hres] at h
                       obtain ⟨s4, hfin, rfl⟩ := markDone_ok'' _ _ _ h
                       have hc4 : Clean s4 := hc
-                      obtain ⟨c3, i4, g4, p4⟩ := presC_finish w _ (fun k => ih _ k) n.kind t o _ _ s3 s4 hfin hc4
+                      obtain ⟨c3, i4, g4, p4⟩ := presC_finish w _ (fun k => ih _ k) n.kind t _ o _ _ s3 s4 hfin hc4
                       obtain ⟨c2, i3, g3, p3⟩ := ih cx' tgt s2 s3 hres c3
                       obtain ⟨c1, i2, g2, p2⟩ := presC_loadDoc w _ (fun l k => ih l k) _ _ s2 hr1 c2
                       have htd : tgt ∈ s3.done := (resolve_marks w fuel cx' tgt s2 s3 hres).1
